@@ -142,9 +142,30 @@ def render_clause(c, mode="full"):
     return h + " :- " + render_body(c["body"], mode) + "."
 
 def render_script(script, mode="full"):
-    """script: {key: [clauses]} ; clauses of one key are kept together, keys in the given order"""
+    """script: {key: [clauses]} ; clauses of one key are kept together, keys in the given order.
+    mode 'decorated': minimal parentheses plus things that must not change the meaning: comments
+    (with quotes, dots and clause-like text inside), directives, blank lines, tabs, CRLF"""
     out = []
+    if mode != "decorated":
+        for key, cls in script.items():
+            for c in cls:
+                out.append(render_clause(c, mode))
+        return "\n".join(out) + "\n"
+    n = 0
+    out.append("% generated for verification: it's a comment. with(a, 'quote) :- and, a dot.")
+    out.append(":- initialization(main).")
     for key, cls in script.items():
+        out.append("")
+        out.append("%% %s" % key.replace("\n", " "))
         for c in cls:
-            out.append(render_clause(c, mode))
+            n += 1
+            line = render_clause(c, "minimal")
+            if n % 3 == 0:
+                line = "\t" + line.replace(" :- ", "\t:-\n\t\t", 1)
+            if n % 4 == 1:
+                line = line + "   % trailing comment p(x) :- q."
+            if n % 5 == 2:
+                out.append(":- dynamic(foo).")
+            out.append(line + ("\r" if n % 7 == 3 else ""))
+    out.append("% last line")
     return "\n".join(out) + "\n"
